@@ -143,6 +143,13 @@ def run(ctx):
                 b'<svg><g id="a"><g><g><reuse href="#a"/></g></g></g></svg>'):
         for cfg in ({}, {'depth_limit': 50}, {'depth_limit': 100, 'loop_limit': 1000, 'var_limit': 1024}, {'depth_limit': 5, 'loop_limit': 3}):
             inputs.append(('sweep:selfreuse:%d' % cfg.get('depth_limit', 100), rec, cfg))
+    import docfuzz
+    frng = rng.fork('total-fuzz')
+    for _ in range(400 if quick else 10000):
+        x, c = docfuzz.gen(frng)
+        inputs.append(('fuzz', x.encode('utf-8'), {k: v for k, v in c.items() if k in ('loop_limit', 'var_limit', 'depth_limit')}))
+        if frng.chance(0.3):
+            inputs.append(('fuzz-mutated', mutate(frng, x), {}))
     for b in NONUTF:
         inputs.append(('nonutf8', b, {}))
         for _ in range(2 if quick else 10):
